@@ -256,3 +256,21 @@ M('C01', 'validate-chunksize', 'utils.py', "            if first_array.chunks !=
 M('C08', 'slope-dask-no-cast', 'slope.py', "                    cellsize_y: Union[int, float]) -> da.Array:\n    data = data.astype(np.float32)\n", "                    cellsize_y: Union[int, float]) -> da.Array:\n", 'L8-dask')
 M('C08', 'aspect-dask-reflect', 'aspect.py', "boundary=np.nan,", "boundary='reflect',", 'L8-dask')
 T('C01', 'mean-cast-float32', 'focal.py', "    out = agg.data.astype(float)\n", "    out = agg.data.astype(np.float32)\n")
+
+# ------------------------------------------------------------------------------------------------ C12
+M('C12', 'jenks-float32-breaks', 'classify.py', "kclass = np.zeros(n_classes + 1, dtype=np.float64)", "kclass = np.zeros(n_classes + 1, dtype=np.float32)", 'K3')
+M('C12', 'bin-no-finite-guard', 'classify.py', "            if np.isfinite(val):\n                if val <= bins[0]:", "            if True:\n                if val <= bins[0]:", 'K1')
+M('C12', 'bin-zero-init', 'classify.py', "    out = np.zeros(data.shape, dtype=np.float32)\n    out[:] = np.nan\n    rows, cols = data.shape\n    nbins = len(bins)", "    out = np.zeros(data.shape, dtype=np.float32)\n    rows, cols = data.shape\n    nbins = len(bins)", 'K1')
+M('C12', 'quantile-labels-from-1', 'classify.py', "out = _bin(agg, bins=q, new_values=np.arange(k))", "out = _bin(agg, bins=q, new_values=np.arange(1, k + 1))", 'K2')
+M('C12', 'natural-last-break-not-max', 'classify.py', "        bins = np.array(centroids[1:])\n        bins[-1] = max_data\n", "        bins = np.array(centroids[1:])\n", 'K3')
+M('C12', 'equal-interval-last-cut', 'classify.py', "        cuts[-1] = max_data\n", "", 'K3')
+M('C12', 'equal-interval-width', 'classify.py', "width = (max_data - min_data) * 1.0 / k", "width = (max_data - min_data) * 1.0 / (k - 1)", 'K4')
+M('C12', 'quantile-no-cap', 'classify.py', "    if p[-1] > 100.0:\n        p[-1] = 100.0\n", "", 'K4')
+M('C12', 'quantile-with-inf', 'classify.py', "q = module.percentile(data[module.isfinite(data)], p)", "q = module.percentile(data[~module.isnan(data)], p)", 'K4')
+M('C12', 'binary-zero-for-nan', 'classify.py', "            elif np.isfinite(data[y, x]):\n                out[y, x] = 0", "            else:\n                out[y, x] = 0", 'K4-binary')
+M('C12', 'bin-first-lt', 'classify.py', "                if val <= bins[0]:", "                if val < bins[0]:", 'K4-bin')
+M('C12', 'bin-narrow-val', 'classify.py', "            val = data[y, x]\n            val_bin = -1", "            val = np.float32(data[y, x])\n            val_bin = -1")
+M('C12', 'reclassify-no-length-check', 'classify.py', "    if len(bins) != len(new_values):\n        raise ValueError(\n            'bins and new_values mismatch. Should have same length.'\n        )\n", "", 'K2')
+M('C12', 'equal-interval-inf-kept', 'classify.py', "    data = module.where(data == inf, nan, data)\n", "", 'K4')
+T('C12', 'jenks-default-dtype', 'classify.py', "kclass = np.zeros(n_classes + 1, dtype=np.float64)", "kclass = np.zeros(n_classes + 1)")
+T('C12', 'bin-ge0', 'classify.py', "            if val_bin > -1:\n                out[y, x] = new_values[val_bin]", "            if val_bin >= 0:\n                out[y, x] = new_values[val_bin]")
